@@ -446,7 +446,7 @@ theorem set_set_get (fs : Fs) (p : CPath) (e1 e2 : Entry) (hp : p ≠ []) (q : C
 theorem sendfile_complete (fs0 : Fs) (fd dest : Fd) (P : CPath) (d : Bytes)
     (hfd1 : fd.pos = 0) (hfd2 : fd.acc = .rdonly) (hfd3 : fd.isDir = false)
     (hget : fs0.get fd.path = some (.file d)) (hP : P ≠ []) (hPnone : fs0.get P = none)
-    (hd1 : dest.acc = .wronly) (hd2 : dest.isDir = false) (hd3 : dest.path = P) :
+    (hd1 : dest.acc = .wronly) (hd2 : dest.isDir = false) (_hd3 : dest.path = P) :
     (sysSendfile (fs0.set P (.file [])) dest fd d.length).2.2.2 = .ok d.length := by
   have hne : fd.path ≠ P := by intro h; rw [h, hPnone] at hget; simp at hget
   have hdata : fileData (fs0.set P (.file [])) fd.path = d := by
